@@ -32,6 +32,34 @@ def E(t):
   return U.E(t)
 
 
+def _sample_sources(fn, expr, channels, depth=0, seen=None):
+  """Which of the channel parameters can supply the *samples* of `expr`: names are followed through every assignment they
+  receive (a name bound in both arms of a test can hold either value); occurrences under len(), .shape, .dtype, .size, .ndim
+  are metadata, not samples."""
+  seen = seen or set()
+  out = set()
+  meta = set()
+  for n in ast.walk(expr):
+    if isinstance(n, ast.Call) and dotted(n.func) == 'len':
+      meta |= set(id(x) for x in ast.walk(n))
+    if isinstance(n, ast.Attribute) and n.attr in ('shape', 'dtype', 'size', 'ndim'):
+      meta |= set(id(x) for x in ast.walk(n))
+  for n in ast.walk(expr):
+    if not (isinstance(n, ast.Name) and isinstance(n.ctx, ast.Load)) or id(n) in meta:
+      continue
+    if n.id in channels:
+      out.add(n.id)
+    elif n.id not in seen and depth < 6:
+      for st in U.walk_stmts(fn):
+        for tgt, val, op in U.store_targets(st):
+          if isinstance(tgt, ast.Name) and tgt.id == n.id and val is not None and op == 'store':
+            out |= _sample_sources(fn, val, channels, depth + 1, seen | {n.id})
+          # samples written into (a part of) the array the name holds: x[...] = v
+          if isinstance(tgt, ast.Subscript) and isinstance(tgt.value, ast.Name) and tgt.value.id == n.id and val is not None and op == 'store':
+            out |= _sample_sources(fn, val, channels, depth + 1, seen | {n.id})
+  return out
+
+
 def run(ctx):
   ms_ = ctx.func('audio_io:make_stereo')
   rz_ = [c for c in U.calls_in(ms_.node) if (dotted(c.func) or '').endswith('.resize') or (isinstance(c.func, ast.Attribute) and c.func.attr in ('resize', 'tile'))]
@@ -187,13 +215,12 @@ def run(ctx):
       bound = isinstance(par, ast.Assign) and par.value is d
       if not (joins or bound):
         continue      # e.g. a shape tuple
-      deps = []
-      for e in d.elts:
-        x = U.expand_locals(ms.node, e, None)
-        deps.append(set(n.id for n in ast.walk(x) if isinstance(n, ast.Name) and n.id in (l, r)))
-      if deps[0] or deps[1]:
+      deps = [_sample_sources(ms.node, e, (l, r)) for e in d.elts]
+      # a pair of *sample data* (not of lengths / masks computed from the lengths): slot 0 must carry the left channel's samples
+      # on every path, slot 1 the right channel's
+      if deps[0] and deps[1]:
         pairs += 1
-        if not (deps[0] <= {l} and deps[1] <= {r} and deps[0] and deps[1]):
+        if not (deps[0] == {l} and deps[1] == {r}):
           mixed.append(d)
   # the other idiom: one row (or column) per channel, filled by subscript stores with a constant channel index
   rows = {}
@@ -203,8 +230,7 @@ def run(ctx):
         ks = [U.const_value(e) if not isinstance(e, ast.Slice) else None for e in tgt.slice.elts]
         chan = [k for k in ks if k in (0, 1)]
         if len(chan) == 1:
-          x = U.expand_locals(ms.node, val, None)
-          dep = set(n.id for n in ast.walk(x) if isinstance(n, ast.Name) and n.id in (l, r))
+          dep = _sample_sources(ms.node, val, (l, r))
           if dep:
             pairs += 1
             rows[chan[0]] = dep
